@@ -7,7 +7,6 @@
 package py
 
 import (
-	"fmt"
 	"math"
 	"math/big"
 	"strconv"
@@ -48,10 +47,25 @@ func FloatNew(metatype *Type, args Tuple, kwargs StringDict) (Object, error) {
 }
 
 func (a Float) M__str__() (Object, error) {
-	if i := int64(a); Float(i) == a {
-		return String(fmt.Sprintf("%d.0", i)), nil
+	f := float64(a)
+	switch {
+	case math.IsInf(f, 1):
+		return String("inf"), nil
+	case math.IsInf(f, -1):
+		return String("-inf"), nil
+	case math.IsNaN(f):
+		return String("nan"), nil
 	}
-	return String(fmt.Sprintf("%g", a)), nil
+	// The shortest digits which read back as the same float, in
+	// exponent format outside 1e-4 <= abs(f) < 1e16
+	if abs := math.Abs(f); abs != 0 && (abs < 1e-4 || abs >= 1e16) {
+		return String(strconv.FormatFloat(f, 'e', -1, 64)), nil
+	}
+	s := strconv.FormatFloat(f, 'f', -1, 64)
+	if !strings.Contains(s, ".") {
+		s += ".0"
+	}
+	return String(s), nil
 }
 
 func (a Float) M__repr__() (Object, error) {
